@@ -96,7 +96,30 @@ def runTo (q : Quirks) : Cfg → Sched → Nat → Cfg × Option Nat
     | some c' => runTo q c' rest (i + 1)
     | none => (c, some i)
 
+/-- a configuration in short (for `trace`) -/
+def cfgJson (c : Cfg) : Json :=
+  .obj [(S "ev", .arr (c.evq.map (fun m => Json.str (S (toString m.id ++ (if m.unacked then "u" else "") ++ (if m.redelivered then "r" else "")))))),
+        (S "rp", .arr (c.rpq.map (fun r => Json.str (S (toString r.corr ++ (if r.unacked then "u" else "") ++ (if r.redelivered then "r" else "")))))),
+        (S "tm", nats c.timers), (S "pend", nats c.pending), (S "orph", nats c.orphans), (S "sent", nats c.sent),
+        (S "joins", .arr (c.joins.map (fun j => Json.str (S (toString j.jid ++ (if j.dead then "†" else "") ++ ":" ++ toString j.filled ++ "/" ++ toString (j.heldEv.map (·.2))))))),
+        (S "notes", .num (Int.ofNat c.notes)), (S "failed", .num (Int.ofNat c.failed)), (S "div", .bool c.diverged)]
+
+/-- the configurations after every operation, as far as the schedule is enabled -/
+def traceTo (q : Quirks) : Cfg → Sched → List Json
+  | _, [] => []
+  | c, (op, cut) :: rest =>
+    match step q c op cut with
+    | some c' => cfgJson c' :: traceTo q c' rest
+    | none => [.str (S "not enabled")]
+
 def handle : List String → String
+  | ["trace", quirks, skeleton, schedule] =>
+    match rd skeleton, rd schedule with
+    | some (.arr items), some (.arr ops) =>
+      match skOf 400 items, ops.mapM opOf with
+      | some sk, some sched => "ok\t" ++ js (.arr (traceTo (quirksOf quirks) (init sk) sched))
+      | _, _ => "unsupported"
+    | _, _ => "unsupported"
   | ["run", quirks, skeleton, schedule] =>
     match rd skeleton, rd schedule with
     | some (.arr items), some (.arr ops) =>
